@@ -12,7 +12,7 @@ LEVEL = "proof"
 RULE = ("corpora x chains (depth 1..3) of keys: slices with every sign of step incl. empty results, boolean masks, "
         "integer arrays sorted / unsorted / with duplicates / negative, take, copy, DataFrame sort_values / iloc / "
         "boolean filter / sample; under avoid_copies True and False; queries: term tf (with and without a position "
-        "range), phrase, positions, lengths, docfreq, default-BM25 score (float32 bits), statistics handed to a custom "
+        "range), phrase, positions (with and without key=), lengths, docfreq, default-BM25 score (float32 bits), statistics handed to a custom "
         "similarity, element access. Non-trivial = a view answer that differs from the all-zero vector and from the "
         "parent's un-reindexed answer. Distinct by input hash.")
 TRUSTED = B.TRUSTED + ["pandas' indexer normalisation (slice / mask / negative ints -> positions) is replicated with numpy in the harness"]
@@ -110,7 +110,23 @@ def gen(rng, tier):
             qs.append(["score", [t], c04.f64_bits(c04.idf_of(nd, dfs))])
             qs.append(["args", [t]])
         sq = [["elem", rng.randrange(cur)] for _ in range(2)] if cur else []
+        # positions(term, key=...): the rows of the view picked by a key (int / slice / int array / mask)
+        kq = []
+        for j, q in enumerate(qs):
+            if q[0] == "pos" and cur and len(kq) < 3:
+                kk = rng.choice(["int", "slice", "ints", "mask"])
+                if kk == "int":
+                    key = {"k": "int", "v": rng.randrange(-cur, cur)}
+                elif kk == "slice":
+                    key = {"k": "slice", "v": [rng.choice([None, rng.randint(-cur, cur)]), rng.choice([None, rng.randint(-cur, cur)]),
+                                                rng.choice([None, 1, 2, -1])]}
+                elif kk == "ints":
+                    key = {"k": "ints", "v": [rng.randrange(-cur, cur) for _ in range(rng.randint(0, 5))]}
+                else:
+                    key = {"k": "mask", "v": [rng.random() < 0.5 for _ in range(cur)]}
+                kq.append(["posk", q[1], key])
         cases.append({"docs": docs, "tokz": "ws", "avoid": rng.random() < 0.6, "keys": keys, "queries": qs, "squeries": sq,
+                      "kqueries": kq,
                       "opts": {"batch_size": rng.choice([1, 3, 100000])} if rng.random() < 0.3 else {}})
     return cases
 
@@ -181,7 +197,17 @@ def impl(case):
             sq.append(["ok", [sorted(el.postings.keys()), K._intf(el.doc_len)]])
         except Exception as e:   # noqa
             sq.append(["exc", type(e).__name__])
-    return {"q": out, "s": sq}
+    kq = []
+    for q in case.get("kqueries", []):
+        key = q[2]
+        try:
+            kv = key["v"] if key["k"] == "int" else slice(*key["v"]) if key["k"] == "slice" else \
+                np.array(key["v"], dtype=bool if key["k"] == "mask" else np.int64)
+            r = arr.positions(K.tok_name(q[1]), key=kv)
+            kq.append(["ok", [[int(x) for x in p_] for p_ in r]])
+        except Exception as e:   # noqa
+            kq.append(["exc", type(e).__name__])
+    return {"q": out, "s": sq, "k": kq}
 
 
 def rngflag(key):
@@ -257,8 +283,21 @@ def equal(case, a, b):
     view_lens = b["lens"]
     if len(a["q"]) != len(case["queries"]) or len(b["vals"]) != len(case["queries"]):
         return False                      # one answer per query on both sides
-    if len(a.get("s", [])) != len(case.get("squeries", [])):
+    if len(a.get("s", [])) != len(case.get("squeries", [])) or len(a.get("k", [])) != len(case.get("kqueries", [])):
         return False
+    # positions(term, key=k) = the view's positions(term) re-indexed by k
+    nview = len(view_lens)
+    for q, iv in zip(case.get("kqueries", []), a.get("k", [])):
+        js = [j for j, q0 in enumerate(case["queries"]) if q0[:2] == ["pos", q[1]]]
+        if not js:
+            continue                     # (a shrunk case may have lost the reference query)
+        sv = b["vals"][js[0]]
+        if sv[0] != "ok" or not any(d and q[1] in d for d in docs):
+            continue                     # a term absent from the corpus: positions() raises, the spec has no opinion
+        key = q[2]
+        sel = [key["v"] % nview] if key["k"] == "int" else apply_key_positions(key, nview)
+        if iv != ["ok", [sv[1][i] for i in sel]]:
+            return False
     for q, iv, sv in zip(case["queries"], a["q"], b["vals"]):
         if q[0] == "phrase":
             if not c03._phrase_ok(iv, sv):
